@@ -46,9 +46,9 @@ def dotted (pre nm : String) : String := if pre.isEmpty then nm else pre ++ "." 
 /-! ### write -/
 
 /-- one attribute (`other` / `ref_pos`) of `PositionArray._write` & co.: a reference by name when the
-object is known to the memo, else an embedded sub-group (`memo[id(attr)] = "<fieldname>.<a>"` is set
-*before* the recursive `_write`).  Creating the sub-group `a` inside a group whose array is itself
-called `a` is an HDF5 name clash (ValueError): nested anonymous `other`s cannot be written. -/
+object is known to the memo, else an embedded sub-group `a` whose `fieldname` is the full dotted name
+`"<fieldname>.<a>"` (after the `fix:`; it is also the name the memo gets *before* the recursive
+`_write`, and the name the array inside the sub-group is stored under). -/
 def writeAttr (rec : Nat → String → WMemo → M (Grp × WMemo)) (fieldname nm : String) (r : Option Nat)
     (memo : WMemo) : M (Option String × List (String × Grp) × WMemo) :=
   match r with
@@ -57,8 +57,7 @@ def writeAttr (rec : Nat → String → WMemo → M (Grp × WMemo)) (fieldname n
     match memo.lookup a with
     | some name => .ok (some name, [], memo)
     | none =>
-      if fieldname == nm then .error .value else
-      match rec a nm ((a, dotted fieldname nm) :: memo) with
+      match rec a (dotted fieldname nm) ((a, dotted fieldname nm) :: memo) with
       | .error e => .error e
       | .ok (g, memo') => .ok (none, [(nm, g)], memo')
 
